@@ -24,12 +24,15 @@ CONSTANTS Scope,     \* "small" | "full"
                           \* parameter (today they do not: non-primitive entries are dropped for such requests - a named deviation;
                           \* the harness reads it off inspect.signature, and if a client offers it, it must work like any other)
 
-Fields == {"name", "count", "flag", "tags", "labels", "inner.name", "kind", "class", "blob", "request_id", "opt_request_id"}
+Fields == {"name", "count", "flag", "tags", "labels", "inner.name", "kind", "class", "blob", "vals", "request_id", "opt_request_id"}
 PresenceFields == {"opt_request_id"}        \* explicit presence (proto3 optional)
 NoVal == [f \in Fields |-> 0]
 
 \* The methods of the carrier API (harness/props/call_common.py builds exactly these).
 \* flat: flattened parameter keys in declared order (union of the method signatures);  auto: auto-populated fields
+\* several signatures: a field named by more than one of them is offered ONCE, at the position of its first occurrence
+FirstOccurrence(seq) == SelectSeq([i \in 1..Len(seq) |-> IF \E j \in 1..(i - 1) : seq[j] = seq[i] THEN "" ELSE seq[i]], LAMBDA x : x # "")
+FlatOf(sigs) == FirstOccurrence(FlattenSeq(sigs))
 Methods ==
   { [name |-> "GetThing",    cs |-> FALSE, ss |-> FALSE, void |-> FALSE, dep |-> FALSE, flat |-> <<"name", "count">>, auto |-> {}],
     [name |-> "DeleteThing", cs |-> FALSE, ss |-> FALSE, void |-> TRUE,  dep |-> FALSE, flat |-> <<"name">>, auto |-> {}],
@@ -37,6 +40,9 @@ Methods ==
        flat |-> <<"inner.name", "tags", "labels", "kind", "class", "flag", "opt_request_id">>, auto |-> {}],
     [name |-> "CreateThing", cs |-> FALSE, ss |-> FALSE, void |-> FALSE, dep |-> FALSE, flat |-> <<"name">>,
        auto |-> {"request_id", "opt_request_id"}],
+    \* overlapping signatures (the second omits a field of the first), and a repeated google.protobuf.Value field
+    [name |-> "TouchThing",  cs |-> FALSE, ss |-> FALSE, void |-> FALSE, dep |-> FALSE,
+       flat |-> FlatOf(<< <<"name", "tags", "count">>, <<"name", "count">>, <<"vals">> >>), auto |-> {}],
     [name |-> "PlainThing",  cs |-> FALSE, ss |-> FALSE, void |-> FALSE, dep |-> FALSE, flat |-> <<>>, auto |-> {}],
     \* RPC names that need disambiguation in the surface (Python keyword; a name the transport uses itself): the wire path keeps them
     [name |-> "Import",      cs |-> FALSE, ss |-> FALSE, void |-> FALSE, dep |-> FALSE, flat |-> <<>>, auto |-> {}],
@@ -47,6 +53,7 @@ Methods ==
     [name |-> "CheckDep",    cs |-> FALSE, ss |-> FALSE, void |-> FALSE, dep |-> TRUE,
        flat |-> IF DepEnumOffered THEN <<"name", "tags", "kind">> ELSE <<"name", "tags">>, auto |-> {}] }
 \* fields each request type actually has (the dependency-package request is smaller)
+Inv_FlatFirstOccurrence == FlatOf(<< <<"name", "tags", "count">>, <<"name", "count">>, <<"vals">> >>) = <<"name", "tags", "count", "vals">>
 HasField(m, f) == IF m.dep THEN f \in {"name", "tags", "labels", "count", "kind", "blob"} ELSE TRUE
 
 Forms == {"msg", "dict", "none", "kwargs", "both"}
